@@ -57,24 +57,79 @@ Proof.
   tcases H; unfold full in *; simpl in *; rw_facts; simpl in *; norm_hyps; rewrite ?app_length; simpl in *; try lia.
 Qed.
 
-(* ---- the loop of _worker_fn is only entered by registered workers ---- *)
+(* ---- the threads that run _worker_fn ---- *)
 Definition loop_pc (p : pcT) : bool :=
   match p with TTop | TL1 | TDeq | TU1t | TRun | TU1 | TL2 | TWait | TWoken => true | _ => false end.
-Definition Iwk (c : cfg) (s : st) : Prop := forall t, loop_pc (pc (th s t)) = true -> t < nthreads c.
+Definition worker_pc (p : pcT) : bool :=
+  match p with TStart | TReg | TExit | TDead => true | _ => loop_pc p end.
 
-Lemma Iwk_step : forall c s t e s', Iwk c s -> step c s t e = Some s' -> Iwk c s'.
+Ltac thr_cases u :=
+  simpl in *; unfold upd in *;
+  repeat match goal with
+  | H : context [u =? ?a] |- _ => destruct (Nat.eqb_spec u a); [subst u|]
+  | |- context [u =? ?a] => destruct (Nat.eqb_spec u a); [subst u|]
+  end; simpl in *.
+
+(* every thread of the ghost list runs _worker_fn; the list has no duplicates; tp->threads is part of it and always
+   contains the threads created by iwtp_start; a thread inside the worker loop is in tp->threads *)
+Definition Iww (s : st) : Prop := forall t, In t (workers s) -> worker_pc (pc (th s t)) = true.
+Definition Inw (s : st) : Prop := NoDup (workers s).
+Definition Irw (s : st) : Prop := forall t, In t (regs s) -> In t (workers s).
+Definition Iregs (c : cfg) (s : st) : Prop := forall w, w < nthreads c -> In w (regs s).
+Definition Iwk (s : st) : Prop := forall t, loop_pc (pc (th s t)) = true -> In t (regs s).
+
+Lemma NoDup_app_snoc : forall (l : list nat) x, NoDup l -> ~ In x l -> NoDup (l ++ [x]).
+Proof.
+  induction l as [|a l IH]; intros x ND Hx; simpl; [constructor; [intros []|constructor]|].
+  inversion ND; subst. constructor.
+  - intros Hin. apply in_app_or in Hin. destruct Hin as [Hin|[Hin|[]]]; [contradiction|subst; apply Hx; left; reflexivity].
+  - apply IH; [assumption|]. intros Hin. apply Hx. right. exact Hin.
+Qed.
+
+Lemma Iww_step : forall c s t e s', Iww s -> step c s t e = Some s' -> Iww s'.
+Proof.
+  intros c s t e s' I H. unfold Iww in *.
+  tcases H; intros u Hu; assert (It := I t); try (assert (Iu := I u Hu)); thr_cases u; rw_facts; auto;
+    try (apply in_app_or in Hu; destruct Hu as [Hu|[Hu|[]]]; try congruence; try (apply I; assumption));
+    try (apply It; assumption).
+Qed.
+
+Lemma Irw_step : forall c s t e s', Irw s -> step c s t e = Some s' -> Irw s'.
+Proof.
+  intros c s t e s' I H. unfold Irw in *.
+  tcases H; simpl in *; intros u Hu; auto;
+    try (apply remove1_In in Hu; destruct Hu as [Hu _]; auto; fail);
+    try (apply in_or_app; apply in_app_or in Hu; destruct Hu as [Hu|Hu]; [left; apply I; assumption|right; assumption]);
+    try (apply in_or_app; left; apply I; assumption).
+Qed.
+
+Lemma Inw_step : forall c s t e s', Iww s -> Inw s -> step c s t e = Some s' -> Inw s'.
+Proof.
+  intros c s t e s' IW I H. unfold Inw in *.
+  tcases H; simpl in *; auto;
+    (apply NoDup_app_snoc; [exact I|]; intros Hin; apply IW in Hin; rewrite E4 in Hin; discriminate Hin).
+Qed.
+
+Lemma Iregs_step : forall c s t e s', Iregs c s -> step c s t e = Some s' -> Iregs c s'.
+Proof.
+  intros c s t e s' I H. unfold Iregs in *.
+  tcases H; simpl in *; intros w Hw; auto;
+    try (apply remove1_In; split; [apply I; assumption|lia]);
+    try (apply in_or_app; left; apply I; assumption).
+Qed.
+
+Lemma Iwk_step : forall c s t e s', Iwk s -> step c s t e = Some s' -> Iwk s'.
 Proof.
   intros c s t e s' I H. unfold Iwk in *.
-  tcases H; intros u Hu; simpl in *; unfold upd in *;
-    repeat match goal with
-    | H : context [u =? ?a] |- _ => destruct (Nat.eqb_spec u a); [subst u|]
-    end; simpl in *; try discriminate; auto;
-    try (apply I; rw_facts; reflexivity).
+  tcases H; intros u Hu; assert (It := I t); thr_cases u; rw_facts; try discriminate; auto;
+    try (apply It; reflexivity);
+    try (apply remove1_In; split; [apply I; assumption|congruence]);
+    try (apply in_or_app; left; apply I; assumption).
 Qed.
 
 (* ---- fresh task ids, partition ---- *)
 Definition cnt_in (x : task) (l : list task) : nat := count_occ Nat.eq_dec l x.
-Definition parts (c : cfg) (s : st) : list task := queue s ++ held c s ++ done s ++ disc s.
+Definition parts (s : st) : list task := queue s ++ held s ++ done s ++ disc s.
 Definition pre_enq (x : thr) : bool := match pc x with Start | Locked => fn x =? 0 | _ => false end.
 
 Definition Iused (s : st) : Prop := forall x, In x (enq s) -> In x (used s).
@@ -82,8 +137,8 @@ Definition Ifresh (s : st) : Prop :=
   forall t, pre_enq (th s t) = true ->
     In (tk (th s t)) (used s) /\ ~ In (tk (th s t)) (enq s) /\
     forall u, u <> t -> pre_enq (th s u) = true -> tk (th s u) <> tk (th s t).
-Definition Ipart (c : cfg) (s : st) : Prop :=
-  forall x, cnt_in x (enq s) = cnt_in x (parts c s) /\ cnt_in x (enq s) <= 1.
+Definition Ipart (s : st) : Prop :=
+  forall x, cnt_in x (enq s) = cnt_in x (parts s) /\ cnt_in x (enq s) <= 1.
 
 Ltac pre_enq_now := unfold pre_enq; rw_facts; repeat match goal with H : fn _ = _ |- _ => rewrite H end; reflexivity.
 
@@ -162,27 +217,47 @@ Qed.
 
 (* effect of one transition on the task lists *)
 Inductive qeff (s s' : st) (t : tid) : Prop :=
-| QSame : queue s' = queue s -> (forall u, held1 s' u = held1 s u) -> done s' = done s -> disc s' = disc s ->
+| QSame : queue s' = queue s -> held s' = held s -> done s' = done s -> disc s' = disc s ->
           enq s' = enq s -> qeff s s' t
 | QEnq : forall x, x = tk (th s t) -> pre_enq (th s t) = true -> queue s' = queue s ++ [x] ->
-          (forall u, held1 s' u = held1 s u) -> done s' = done s -> disc s' = disc s -> enq s' = enq s ++ [x] -> qeff s s' t
+          held s' = held s -> done s' = done s -> disc s' = disc s -> enq s' = enq s ++ [x] -> qeff s s' t
 | QDeq : forall x, loop_pc (pc (th s t)) = true -> queue s = x :: queue s' -> held1 s t = [] -> held1 s' t = [x] ->
-          (forall u, u <> t -> held1 s' u = held1 s u) -> done s' = done s -> disc s' = disc s -> enq s' = enq s -> qeff s s' t
+          workers s' = workers s -> (forall u, u <> t -> held1 s' u = held1 s u) -> done s' = done s -> disc s' = disc s ->
+          enq s' = enq s -> qeff s s' t
 | QDone : forall x, loop_pc (pc (th s t)) = true -> queue s' = queue s -> held1 s t = [x] -> held1 s' t = [] ->
-          (forall u, u <> t -> held1 s' u = held1 s u) -> done s' = done s ++ [x] -> disc s' = disc s -> enq s' = enq s ->
-          qeff s s' t
-| QClear : queue s' = [] -> (forall u, held1 s' u = held1 s u) -> done s' = done s -> disc s' = disc s ++ queue s ->
+          workers s' = workers s -> (forall u, u <> t -> held1 s' u = held1 s u) -> done s' = done s ++ [x] ->
+          disc s' = disc s -> enq s' = enq s -> qeff s s' t
+| QClear : queue s' = [] -> held s' = held s -> done s' = done s -> disc s' = disc s ++ queue s ->
           enq s' = enq s -> qeff s s' t.
 
-Ltac held_same :=
+Lemma flat_map_same : forall (f g : nat -> list task) l, (forall u, In u l -> g u = f u) -> flat_map g l = flat_map f l.
+Proof.
+  intros f g l. induction l as [|a l IH]; intros H; simpl; [reflexivity|].
+  rewrite (H a (or_introl eq_refl)), IH; [reflexivity|]. intros u Hu. apply H. right. exact Hu.
+Qed.
+
+Ltac held_pt :=
   intros u; unfold held1; simpl; unfold upd;
   repeat match goal with |- context [u =? ?a] => destruct (Nat.eqb_spec u a); [subst u|] end;
   simpl; rw_facts; try reflexivity.
 
+(* held is unchanged when no thread enters or leaves the holding pc's (a spawned thread holds nothing) *)
+Ltac held_same :=
+  unfold held; simpl; rewrite ?flat_map_app; simpl; rewrite ?app_nil_r;
+  try (unfold held1 at 2; simpl; unfold upd; rewrite ?Nat.eqb_refl; simpl; rewrite ?app_nil_r);
+  apply flat_map_same; intros u _; revert u; held_pt.
+
+Lemma held_spawn : forall s s' ch, workers s' = workers s ++ [ch] -> (forall u, held1 s' u = held1 s u) ->
+  held1 s ch = [] -> held s' = held s.
+Proof.
+  intros s s' ch Hw Hp Hc. unfold held. rewrite Hw, flat_map_app. simpl. rewrite (Hp ch), Hc, !app_nil_r.
+  apply flat_map_same. intros u _. apply Hp.
+Qed.
+
 Lemma step_qeff : forall c s t e s', step c s t e = Some s' -> qeff s s' t.
 Proof.
   intros c s t e s' H. tcases H;
-    first [ solve [apply QSame; try reflexivity; held_same]
+    try first [ solve [apply QSame; try reflexivity; held_same]
           | solve [eapply QEnq; try reflexivity; try pre_enq_now; held_same]
           | solve [eapply QDeq; try eassumption; try reflexivity; rw_facts; try reflexivity;
                    unfold held1; simpl; unfold upd; rewrite ?Nat.eqb_refl; simpl; rw_facts; try reflexivity;
@@ -190,7 +265,8 @@ Proof.
           | solve [eapply QDone; try reflexivity; rw_facts; try reflexivity;
                    unfold held1; simpl; unfold upd; rewrite ?Nat.eqb_refl; simpl; rw_facts; try reflexivity;
                    intros u Hu; destruct (Nat.eqb_spec u t); [contradiction|reflexivity]]
-          | solve [apply QClear; simpl; rewrite ?app_nil_r; try reflexivity; held_same] ].
+          | solve [apply QClear; simpl; rewrite ?app_nil_r; try reflexivity; held_same] ];
+    (apply QSame; try reflexivity; apply (held_spawn _ _ child); [reflexivity|held_pt|unfold held1; rewrite E4; reflexivity]).
 Qed.
 
 Lemma cnt_app : forall x a b, cnt_in x (a ++ b) = cnt_in x a + cnt_in x b.
@@ -198,12 +274,6 @@ Proof. intros. unfold cnt_in. apply count_occ_app. Qed.
 
 Lemma cnt_pos_In : forall x l, In x l <-> cnt_in x l >= 1.
 Proof. intros. unfold cnt_in. rewrite (count_occ_In Nat.eq_dec). lia. Qed.
-
-Lemma flat_map_same : forall (f g : nat -> list task) l, (forall u, In u l -> g u = f u) -> flat_map g l = flat_map f l.
-Proof.
-  intros f g l. induction l as [|a l IH]; intros H; simpl; [reflexivity|].
-  rewrite (H a (or_introl eq_refl)), IH; [reflexivity|]. intros u Hu. apply H. right. exact Hu.
-Qed.
 
 Lemma cnt_flat_map_upd : forall (f g : nat -> list task) t y l, NoDup l -> In t l -> (forall u, u <> t -> g u = f u) ->
   cnt_in y (flat_map g l) + cnt_in y (f t) = cnt_in y (flat_map f l) + cnt_in y (g t).
@@ -214,14 +284,12 @@ Proof.
   - destruct Hin as [->|Hin]; [congruence|]. rewrite (Hext a Ne). specialize (IH ND' Hin Hext). lia.
 Qed.
 
-Lemma held_upd : forall c s s' t y, t < nthreads c -> (forall u, u <> t -> held1 s' u = held1 s u) ->
-  cnt_in y (held c s') + cnt_in y (held1 s t) = cnt_in y (held c s) + cnt_in y (held1 s' t).
+Lemma held_upd : forall s s' t y, NoDup (workers s) -> In t (workers s) -> workers s' = workers s ->
+  (forall u, u <> t -> held1 s' u = held1 s u) ->
+  cnt_in y (held s') + cnt_in y (held1 s t) = cnt_in y (held s) + cnt_in y (held1 s' t).
 Proof.
-  intros c s s' t y Ht Hext. unfold held. apply cnt_flat_map_upd; [apply seq_NoDup|apply in_seq; lia|exact Hext].
+  intros s s' t y ND Hin Hw Hext. unfold held. rewrite Hw. apply cnt_flat_map_upd; assumption.
 Qed.
-
-Lemma held_same_all : forall c s s', (forall u, held1 s' u = held1 s u) -> held c s' = held c s.
-Proof. intros c s s' H. unfold held. apply flat_map_same. intros u _. apply H. Qed.
 
 Lemma cnt_single : forall x y, cnt_in y [x] = if Nat.eq_dec x y then 1 else 0.
 Proof. intros. unfold cnt_in. simpl. destruct (Nat.eq_dec x y); reflexivity. Qed.
@@ -232,66 +300,92 @@ Proof. intros. unfold cnt_in. simpl. destruct (Nat.eq_dec x y); reflexivity. Qed
 Lemma cnt_nil : forall y, cnt_in y [] = 0.
 Proof. reflexivity. Qed.
 
-Lemma Ipart_step : forall c s t e s', Iwk c s -> Ifresh s -> Ipart c s -> step c s t e = Some s' -> Ipart c s'.
+Lemma Ipart_step : forall c s t e s', Inw s -> Irw s -> Iwk s -> Ifresh s -> Ipart s -> step c s t e = Some s' -> Ipart s'.
 Proof.
-  intros c s t e s' IW IF I H. apply step_qeff in H. unfold Ipart in *. intros y. destruct (I y) as [P Q].
+  intros c s t e s' ND IR IW IF I H. apply step_qeff in H. unfold Ipart in *. intros y. destruct (I y) as [P Q].
   unfold parts in *. rewrite !cnt_app in *.
-  destruct H as [H1 H2 H3 H4 H5 | x Hx Hp H1 H2 H3 H4 H5 | x Hl H1 Ha Hb H2 H3 H4 H5 | x Hl H1 Ha Hb H2 H3 H4 H5
+  destruct H as [H1 H2 H3 H4 H5 | x Hx Hp H1 H2 H3 H4 H5 | x Hl H1 Ha Hb Hw H2 H3 H4 H5 | x Hl H1 Ha Hb Hw H2 H3 H4 H5
                 | H1 H2 H3 H4 H5].
-  - rewrite H1, (held_same_all c s s' H2), H3, H4, H5. split; assumption.
+  - rewrite H1, H2, H3, H4, H5. split; assumption.
   - assert (Z : ~ In x (enq s)) by (subst x; apply IF; assumption).
     assert (Z0 : cnt_in x (enq s) = 0) by (apply (count_occ_not_In Nat.eq_dec); exact Z).
-    rewrite H1, (held_same_all c s s' H2), H3, H4, H5, !cnt_app, !cnt_single.
+    rewrite H1, H2, H3, H4, H5, !cnt_app, !cnt_single.
     destruct (Nat.eq_dec x y) as [->|N]; lia.
-  - assert (HU := held_upd c s s' t y (IW t Hl) H2). rewrite Ha, Hb, cnt_single, cnt_nil in HU.
+  - assert (HU := held_upd s s' t y ND (IR t (IW t Hl)) Hw H2). rewrite Ha, Hb, cnt_single, cnt_nil in HU.
     rewrite H1, cnt_cons in P. rewrite H3, H4, H5. destruct (Nat.eq_dec x y); lia.
-  - assert (HU := held_upd c s s' t y (IW t Hl) H2). rewrite Ha, Hb, cnt_single, cnt_nil in HU.
+  - assert (HU := held_upd s s' t y ND (IR t (IW t Hl)) Hw H2). rewrite Ha, Hb, cnt_single, cnt_nil in HU.
     rewrite H1, H3, H4, H5, cnt_app, cnt_single. destruct (Nat.eq_dec x y); lia.
-  - rewrite H1, (held_same_all c s s' H2), H3, H4, H5, cnt_app, cnt_nil. lia.
+  - rewrite H1, H2, H3, H4, H5, cnt_app, cnt_nil. lia.
 Qed.
 
-(* ---- variant with the shutdown check in iwtp_schedule: after a worker has left, the flag is set and the queue stays empty ---- *)
+(* ---- variant with the shutdown check in iwtp_schedule: after a pool thread of iwtp_start has left, the flag is set and the
+        queue stays empty ---- *)
 Definition Idead (c : cfg) (s : st) : Prop :=
   chk c = true -> forall w, w < nthreads c -> pc (th s w) = TExit \/ pc (th s w) = TDead -> shut s = true /\ queue s = [].
 
-Ltac thr_cases u :=
-  simpl in *; unfold upd in *;
-  repeat match goal with
-  | H : context [u =? ?a] |- _ => destruct (Nat.eqb_spec u a); [subst u|]
-  | |- context [u =? ?a] => destruct (Nat.eqb_spec u a); [subst u|]
-  end; simpl in *.
-
-Lemma Idead_step : forall c s t e s', Idead c s -> step c s t e = Some s' -> Idead c s'.
+Lemma Idead_step : forall c s t e s', Iregs c s -> Idead c s -> step c s t e = Some s' -> Idead c s'.
 Proof.
-  intros c s t e s' I H. unfold Idead in *. intros Hc w Hw Hp.
+  intros c s t e s' IR I H. unfold Idead in *. intros Hc w Hw Hp.
   tcases H; thr_cases w; rw_facts;
     try (destruct Hp as [Hp|Hp]; discriminate Hp); try lia;
     try (destruct (I Hc w Hw Hp) as [I1 I2]); rw_facts; auto; try congruence; try discriminate;
     try (split; auto; fail);
-    try (apply (I Hc t Hw); left; assumption).
+    try (apply (I Hc t Hw); left; assumption);
+    try (exfalso; match goal with H : ~ In ?x (regs _) |- _ => apply H; apply IR; assumption end).
 Qed.
 
-(* ---- pthread_join of every registered worker returns only after that worker has finished ---- *)
+(* ---- shutdown thread: flag set from the broadcast on; a thread that has just linked a task saw the flag clear ---- *)
+Definition Ishutq (s : st) : Prop :=
+  forall t, match pc (th s t) with QB | QJoin | QFreed => shut s = true | _ => True end.
+Definition Ipenq (c : cfg) (s : st) : Prop :=
+  chk c = true -> forall u, pc (th s u) = PEnq -> owner s = Some u -> shut s = false.
+
+Lemma Ishutq_step : forall c s t e s', Ishutq s -> step c s t e = Some s' -> Ishutq s'.
+Proof.
+  intros c s t e s' I H. unfold Ishutq in *.
+  tcases H; intros u; assert (Iu := I u); assert (It := I t); thr_cases u; rw_facts; auto;
+    try (destruct (pc (th s u)); auto); try discriminate; try congruence.
+Qed.
+
+Lemma Ipenq_step : forall c s t e s', Ipenq c s -> step c s t e = Some s' -> Ipenq c s'.
+Proof.
+  intros c s t e s' I H. unfold Ipenq in *. intros Hc u Hp Ho.
+  tcases H; thr_cases u; rw_facts; try discriminate; try congruence; auto;
+    try (apply (I Hc u); congruence).
+Qed.
+
+(* ---- iwtp_shutdown joins every thread that is or will be inside the worker loop (variant with the shutdown check) ---- *)
+Definition prejoin (s : st) (w : tid) : bool :=
+  match pc (th s w) with TStart | TReg => memb w (regs s) | p => loop_pc p end.
 Definition Ijoin (c : cfg) (s : st) : Prop :=
+  chk c = true ->
   forall t, match pc (th s t) with
-            | QJoin k => forall w, w < k -> w < nthreads c -> pc (th s w) = TDead
-            | QFreed => forall w, w < nthreads c -> pc (th s w) = TDead
+            | QB | QJoin | QFreed => forall w, prejoin s w = true -> In w (jl (th s t))
             | _ => True
             end.
 
-Lemma Ijoin_step : forall c s t e s', Ijoin c s -> step c s t e = Some s' -> Ijoin c s'.
+Lemma prejoin_regs : forall s w, Iwk s -> prejoin s w = true -> In w (regs s).
 Proof.
-  intros c s t e s' I H. unfold Ijoin in *.
-  tcases H; intros u; assert (Iu := I u); assert (It := I t); thr_cases u; rw_facts; auto;
-    try (destruct (pc (th s u)) eqn:Eu; auto); intros w Hw1; try intros Hw2;
-    repeat match goal with |- context [w =? ?a] => destruct (Nat.eqb_spec w a); [subst w|] end; simpl;
-    try (apply Iu; assumption); try (apply It; assumption);
-    try (assert (X := Iu _ Hw1 Hw2); congruence); try (assert (X := Iu _ Hw1); congruence);
-    try (assert (X := It _ Hw1 Hw2); congruence); try (assert (X := It _ Hw1); congruence); try lia.
-  - assert (t < k \/ t = k) as [A|A] by lia; [assert (X := It t A Hw2); congruence|subst; congruence].
-  - assert (w < k \/ w = k) as [A|A] by lia; [apply It; assumption|subst; assumption].
-  - assert (A : t < k) by lia. assert (X := It t A Hw1). congruence.
-  - apply It; lia.
+  intros s w IW H. unfold prejoin in H. destruct (pc (th s w)) eqn:E; try discriminate H;
+    first [apply memb_true; exact H | apply IW; rewrite E; reflexivity].
+Qed.
+
+Lemma Ijoin_step : forall c s t e s', Iwk s -> Ishutq s -> Ipenq c s -> Ijoin c s -> step c s t e = Some s' -> Ijoin c s'.
+Proof.
+  intros c s t e s' IW IS IP I H. unfold Ijoin in *. intros Hc u. specialize (I Hc).
+  assert (Iu := I u); assert (It := I t); assert (Su := IS u); specialize (IP Hc).
+  tcases H; thr_cases u; rw_facts; auto;
+    try (destruct (pc (th s u)) eqn:Eu; auto); intros w Hw; unfold prejoin in *; simpl in *; unfold upd in *;
+    repeat match goal with H : context [w =? ?a] |- _ => destruct (Nat.eqb_spec w a); [subst w|] end; simpl in *;
+    try discriminate Hw;
+    try (apply Iu; rw_facts; simpl; auto; fail);
+    try (apply It; rw_facts; simpl; auto; fail);
+    try (exfalso; assert (X := IP _ E E0); congruence);
+    try (exfalso; assert (X := IP t E eq_refl); congruence);
+    try (apply (prejoin_regs s w IW); unfold prejoin; exact Hw);
+    try discriminate Su;
+    try (destruct (It w Hw) as [X|X]; [subst; rewrite E3 in Hw; discriminate Hw|exact X]);
+    try (apply Iu; rewrite E; apply memb_true; assumption).
 Qed.
 
 Definition Idw (s : st) : Prop := disc s = [] \/ (shut s = true /\ shut_wait s = false).
@@ -323,31 +417,40 @@ Proof.
 Qed.
 
 Record Inv (c : cfg) (s : st) : Prop := mkInv {
-  i_q : Iq s; i_lim : Ilim c s; i_wk : Iwk c s; i_used : Iused s; i_fresh : Ifresh s; i_part : Ipart c s;
-  i_dead : Idead c s; i_join : Ijoin c s; i_dw : Idw s; i_accpc : Iaccpc s; i_acc : Iacc s }.
+  i_q : Iq s; i_lim : Ilim c s; i_ww : Iww s; i_nw : Inw s; i_rw : Irw s; i_regs : Iregs c s; i_wk : Iwk s;
+  i_used : Iused s; i_fresh : Ifresh s; i_part : Ipart s; i_dead : Idead c s; i_shutq : Ishutq s; i_penq : Ipenq c s;
+  i_join : Ijoin c s; i_dw : Idw s; i_accpc : Iaccpc s; i_acc : Iacc s }.
 
-Lemma held_init : forall c, held c (init c) = [].
+Lemma held_nil : forall s, (forall t, In t (workers s) -> held1 s t = []) -> held s = [].
 Proof.
-  intros c. unfold held. assert (forall l, (forall t, In t l -> t < nthreads c) -> flat_map (held1 (init c)) l = []) as X.
-  { induction l as [|a l IH]; intros Hl; simpl; [reflexivity|]. rewrite IH by (intros; apply Hl; right; assumption).
-    unfold held1. simpl. assert (a < nthreads c) by (apply Hl; left; reflexivity).
-    destruct (Nat.ltb_spec a (nthreads c)); [reflexivity|lia]. }
-  apply X. intros t Ht. apply in_seq in Ht. lia.
+  intros s H. unfold held. induction (workers s) as [|a l IH]; simpl; [reflexivity|].
+  rewrite (H a (or_introl eq_refl)), IH; [reflexivity|]. intros t Ht. apply H. right. exact Ht.
 Qed.
+
+Lemma init_pc : forall c t, pc (th (init c) t) = if t <? nthreads c then TStart else Idle.
+Proof. intros. simpl. destruct (t <? nthreads c); reflexivity. Qed.
 
 Lemma Inv_init : forall c, Inv c (init c).
 Proof.
   intros c. constructor.
   - reflexivity.
   - right. simpl. lia.
-  - intros t. simpl. destruct (Nat.ltb_spec t (nthreads c)); simpl; [auto|discriminate].
+  - intros t Ht. simpl in Ht. apply in_seq in Ht. rewrite init_pc. destruct (Nat.ltb_spec t (nthreads c)); [reflexivity|lia].
+  - apply seq_NoDup.
+  - intros t Ht. exact Ht.
+  - intros w Hw. simpl. apply in_seq. lia.
+  - intros t Ht. rewrite init_pc in Ht. destruct (t <? nthreads c); discriminate Ht.
   - intros x [].
-  - intros t. unfold pre_enq. simpl. destruct (t <? nthreads c); discriminate.
-  - intros x. unfold parts. rewrite held_init. simpl. split; [reflexivity|lia].
-  - intros _ w Hw. simpl. destruct (w <? nthreads c); intros [H|H]; discriminate.
-  - intros t. simpl. destruct (t <? nthreads c); exact I.
+  - intros t. unfold pre_enq. rewrite init_pc. destruct (t <? nthreads c); discriminate.
+  - intros x. unfold parts. rewrite held_nil.
+    + simpl. split; [reflexivity|lia].
+    + intros t _. unfold held1. rewrite init_pc. destruct (t <? nthreads c); reflexivity.
+  - intros _ w Hw. rewrite init_pc. destruct (w <? nthreads c); intros [H|H]; discriminate.
+  - intros t. rewrite init_pc. destruct (t <? nthreads c); exact I.
+  - intros _ u Hu. rewrite init_pc in Hu. destruct (u <? nthreads c); discriminate.
+  - intros _ t. rewrite init_pc. destruct (t <? nthreads c); exact I.
   - left. reflexivity.
-  - intros t. simpl. destruct (t <? nthreads c); exact I.
+  - intros t. rewrite init_pc. destruct (t <? nthreads c); exact I.
   - intros x [].
 Qed.
 
@@ -356,11 +459,17 @@ Proof.
   intros c s t e s' [] H. constructor.
   - eapply Iq_step; eauto.
   - eapply Ilim_step; eauto.
+  - eapply Iww_step; eauto.
+  - eapply Inw_step; eauto.
+  - eapply Irw_step; eauto.
+  - eapply Iregs_step; eauto.
   - eapply Iwk_step; eauto.
   - eapply Iused_step; eauto.
   - eapply Ifresh_step; eauto.
   - eapply Ipart_step; eauto.
   - eapply Idead_step; eauto.
+  - eapply Ishutq_step; eauto.
+  - eapply Ipenq_step; eauto.
   - eapply Ijoin_step; eauto.
   - eapply Idw_step; eauto.
   - eapply Iaccpc_step; eauto.
@@ -376,47 +485,61 @@ Proof. intros l H. apply (NoDup_count_occ Nat.eq_dec). exact H. Qed.
 
 Theorem accepted_partition : forall c s, R c s ->
   (forall x, In x (acc s) -> In x (enq s)) /\
-  (forall x, In x (enq s) <-> In x (queue s ++ held c s ++ done s ++ disc s)) /\
-  NoDup (queue s ++ held c s ++ done s ++ disc s) /\ NoDup (enq s).
+  (forall x, In x (enq s) <-> In x (queue s ++ held s ++ done s ++ disc s)) /\
+  NoDup (queue s ++ held s ++ done s ++ disc s) /\ NoDup (enq s).
 Proof.
   intros c s H. apply Inv_R in H. destruct H. split; [exact i_acc0|]. split; [|split].
-  - intros x. destruct (i_part0 x) as [P _]. rewrite !cnt_pos_In. fold (parts c s). lia.
-  - apply cnt_le1_NoDup. intros x. destruct (i_part0 x) as [P Q]. fold (parts c s). lia.
+  - intros x. destruct (i_part0 x) as [P _]. rewrite !cnt_pos_In. fold (parts s). lia.
+  - apply cnt_le1_NoDup. intros x. destruct (i_part0 x) as [P Q]. fold (parts s). lia.
   - apply cnt_le1_NoDup. intros x. destruct (i_part0 x) as [P Q]. exact Q.
 Qed.
 
 Theorem limit_respected : forall c s, R c s -> limit c > 0 -> length (queue s) <= limit c /\ qsize s = length (queue s).
 Proof. intros c s H L. apply Inv_R in H. destruct H. split; [destruct i_lim0; lia|exact i_q0]. Qed.
 
-Lemma held_all_dead : forall c s, (forall w, w < nthreads c -> pc (th s w) = TDead) -> held c s = [].
-Proof.
-  intros c s H. unfold held.
-  assert (forall l, (forall t, In t l -> t < nthreads c) -> flat_map (held1 s) l = []) as X.
-  { induction l as [|a l IH]; intros Hl; simpl; [reflexivity|]. rewrite IH by (intros; apply Hl; right; assumption).
-    unfold held1. rewrite (H a) by (apply Hl; left; reflexivity). reflexivity. }
-  apply X. intros t Ht. apply in_seq in Ht. lia.
-Qed.
-
-(* variant with the shutdown check: when iwtp_shutdown has joined every worker, every linked task has run or was dropped
-   by that (non-waiting) shutdown; a waiting shutdown drops nothing *)
+(* variant with the shutdown check: when iwtp_shutdown has joined the threads of its list, no thread is inside the worker
+   loop any more, every linked task has run or was dropped by that (non-waiting) shutdown; a waiting shutdown drops nothing *)
 Theorem shutdown_wait_drains : forall c s t, R c s -> chk c = true -> nthreads c > 0 -> pc (th s t) = QFreed ->
-  shut s = true /\ queue s = [] /\
+  jl (th s t) = [] -> 
+  shut s = true /\ queue s = [] /\ held s = [] /\
   (forall x, In x (enq s) -> In x (done s) \/ In x (disc s)) /\
   (shut_wait s = true -> disc s = [] /\ forall x, In x (acc s) -> In x (done s)).
 Proof.
-  intros c s t H Hc Hn Hp. destruct (accepted_partition c s H) as (_ & P & _). apply Inv_R in H. destruct H.
-  assert (D := i_join0 t). rewrite Hp in D.
-  destruct (i_dead0 Hc 0 Hn (or_intror (D 0 Hn))) as [A B].
+  intros c s t H Hc Hn Hp Hj. destruct (accepted_partition c s H) as (_ & P & _). apply Inv_R in H. destruct H.
+  assert (D := i_join0 Hc t). rewrite Hp, Hj in D.
+  assert (NP : forall w, prejoin s w = false).
+  { intros w. destruct (prejoin s w) eqn:E; [destruct (D w E)|reflexivity]. }
+  assert (Hh : held s = []).
+  { apply held_nil. intros u _. assert (X := NP u). unfold prejoin in X. unfold held1. destruct (pc (th s u)); try reflexivity; discriminate X. }
+  assert (W0 : pc (th s 0) = TExit \/ pc (th s 0) = TDead).
+  { assert (X := NP 0). assert (Y := i_ww0 0 (i_rw0 0 (i_regs0 0 Hn))). assert (Z := i_regs0 0 Hn). apply memb_true in Z.
+    unfold prejoin in X. destruct (pc (th s 0)); try discriminate X; try discriminate Y; auto; congruence. }
+  destruct (i_dead0 Hc 0 Hn W0) as [A B].
   assert (X : forall x, In x (enq s) -> In x (done s) \/ In x (disc s)).
-  { intros x Hx. apply P in Hx. rewrite B, (held_all_dead c s D) in Hx. simpl in Hx. apply in_app_or in Hx. exact Hx. }
-  split; [exact A|]. split; [exact B|]. split; [exact X|]. intros Hw.
+  { intros x Hx. apply P in Hx. rewrite B, Hh in Hx. simpl in Hx. apply in_app_or in Hx. exact Hx. }
+  split; [exact A|]. split; [exact B|]. split; [exact Hh|]. split; [exact X|]. intros Hw.
   assert (E : disc s = []) by (destruct i_dw0 as [E|[_ E]]; [exact E|congruence]).
   split; [exact E|]. intros x Hx. destruct (X x (i_acc0 x Hx)) as [Y|Y]; [exact Y|]. rewrite E in Y. contradiction.
 Qed.
 
+Definition Ijl (s : st) : Prop := forall t, pc (th s t) = QFreed -> jl (th s t) = [].
+
+Lemma Ijl_step : forall c s t e s', Ijl s -> step c s t e = Some s' -> Ijl s'.
+Proof.
+  intros c s t e s' I H. unfold Ijl in *.
+  tcases H; intros u Hu; thr_cases u; rw_facts; try discriminate; auto.
+Qed.
+
+Lemma freed_jl_nil : forall c s t, R c s -> pc (th s t) = QFreed -> jl (th s t) = [].
+Proof.
+  intros c s t H. revert t. change (Ijl s). eapply invariant_reachable; [| |exact H].
+  - intros t Ht. rewrite init_pc in Ht. destruct (t <? nthreads c); discriminate Ht.
+  - intros s0 t0 e s1 I Hs. eapply Ijl_step; eauto.
+Qed.
+
 (* the code as found (no shutdown check in iwtp_schedule): real event trace of the directed scenario
    `tp-schedule-during-shutdown` (one worker, waiting shutdown): the call is accepted after the only worker has left *)
-Definition lost_cfg : cfg := mkcfg 1 0 0 false.
+Definition lost_cfg : cfg := mkcfg 1 0 0 false false.
 Definition lost_trace : list (tid * ev) :=
   [(20, ECall 3 0 true); (20, ELock); (20, EBcast 0); (20, EUnlock);
    (0, ELock); (0, EUnlock); (0, ELock); (0, EUnlock); (0, ELock); (0, EUnlock); (0, EExit); (20, EJoin 0);
@@ -446,13 +569,21 @@ Proof.
     try (destruct Hv as [<-|Hv]; [lia|auto]).
 Qed.
 
+Definition Itw (c : cfg) (s : st) : Prop := forall t, pc (th s t) = TWait -> t < nthreads c.
+
+Lemma Itw_step : forall c s t e s', Itw c s -> step c s t e = Some s' -> Itw c s'.
+Proof.
+  intros c s t e s' I H. unfold Itw in *.
+  tcases H; intros u Hu; thr_cases u; rw_facts; try discriminate; auto; try lia.
+Qed.
+
 Lemma ap_nil : forall c s, nthreads c > 0 -> waitc s = [] -> ~ allparked c s.
 Proof. intros c s Hn Hw A. specialize (A 0 Hn). rewrite Hw in A. contradiction. Qed.
 
 Lemma ap_rm : forall c s v l, v < nthreads c -> waitc s = remove1 v l -> ~ allparked c s.
 Proof. intros c s v l Hv Hw A. specialize (A v Hv). rewrite Hw in A. apply remove1_not_In in A. exact A. Qed.
 
-Lemma Ipsig_step : forall c s t e s', nthreads c > 0 -> Iwc c s -> Iwk c s -> Ipsig c s -> step c s t e = Some s' -> Ipsig c s'.
+Lemma Ipsig_step : forall c s t e s', nthreads c > 0 -> Iwc c s -> Itw c s -> Ipsig c s -> step c s t e = Some s' -> Ipsig c s'.
 Proof.
   intros c s t e s' Hn IC IW I H. unfold Ipsig in *.
   tcases H; intros u Ho Hp; thr_cases u; rw_facts; try discriminate; try congruence;
@@ -461,13 +592,13 @@ Proof.
     try (unfold allparked in *; simpl; eapply I; eauto; congruence).
 Qed.
 
-Lemma Inlw_step : forall c s t e s', nthreads c > 0 -> Iwc c s -> Iwk c s -> Ipsig c s -> Inlw c s ->
+Lemma Inlw_step : forall c s t e s', nthreads c > 0 -> Iwc c s -> Itw c s -> Ipsig c s -> Inlw c s ->
   step c s t e = Some s' -> Inlw c s'.
 Proof.
   intros c s t e s' Hn IC IW IP I H. unfold Inlw in *.
   tcases H; intros AP;
     try (exfalso; eapply ap_nil; [exact Hn| |exact AP]; simpl; try assumption; reflexivity);
-    try (exfalso; eapply ap_rm; [| |exact AP]; [|simpl; reflexivity]; first [apply IC; assumption | apply IW; rw_facts; reflexivity]);
+    try (exfalso; eapply ap_rm; [| |exact AP]; [|simpl; reflexivity]; first [apply IC; assumption | apply IW; assumption]);
     simpl in *; try (left; assumption); try (left; reflexivity);
     try (right; unfold upd; rewrite Nat.eqb_refl; simpl; auto; fail);
     try (exfalso; eapply IP; eauto; fail);
@@ -485,11 +616,12 @@ Theorem no_lost_wakeup : forall c s, nthreads c > 0 -> R c s -> owner s = None -
   exists w, w < nthreads c /\ ~ In w (waitc s).
 Proof.
   intros c s Hn H Ho Hq.
-  assert (X : Iwc c s /\ Iwk c s /\ Ipsig c s /\ Inlw c s).
-  { eapply (invariant_reachable st (step c) (fun s => Iwc c s /\ Iwk c s /\ Ipsig c s /\ Inlw c s)); [| |exact H].
-    - split; [intros v []|]. split; [apply Inv_init|]. split; [intros t Ht; discriminate Ht|].
+  assert (X : Iwc c s /\ Itw c s /\ Ipsig c s /\ Inlw c s).
+  { eapply (invariant_reachable st (step c) (fun s => Iwc c s /\ Itw c s /\ Ipsig c s /\ Inlw c s)); [| |exact H].
+    - split; [intros v []|]. split; [intros t Ht; rewrite init_pc in Ht; destruct (t <? nthreads c); discriminate Ht|].
+      split; [intros t Ht; discriminate Ht|].
       intros A. left. reflexivity.
-    - intros s0 t e s1 (A & B & C & D) Hs. split; [eapply Iwc_step; eauto|]. split; [eapply Iwk_step; eauto|].
+    - intros s0 t e s1 (A & B & C & D) Hs. split; [eapply Iwc_step; eauto|]. split; [eapply Itw_step; eauto|].
       split; [eapply Ipsig_step; eauto|eapply Inlw_step; eauto]. }
   destruct X as (_ & _ & _ & I).
   (* not all parked, by contradiction on the decidable finite search *)
@@ -503,3 +635,9 @@ Proof.
   destruct (D (nthreads c)) as [A|E]; [|exact E].
   exfalso. destruct (I A) as [Q|Q]; [contradiction|]. rewrite Ho in Q. exact Q.
 Qed.
+
+Theorem shutdown_wait_drains_thm : forall c s t, R c s -> chk c = true -> nthreads c > 0 -> pc (th s t) = QFreed ->
+  shut s = true /\ queue s = [] /\ held s = [] /\
+  (forall x, In x (enq s) -> In x (done s) \/ In x (disc s)) /\
+  (shut_wait s = true -> disc s = [] /\ forall x, In x (acc s) -> In x (done s)).
+Proof. intros c s t H Hc Hn Hp. eapply shutdown_wait_drains; eauto. eapply freed_jl_nil; eauto. Qed.
